@@ -455,9 +455,54 @@ class Ctx:
     def _check(self, *assumptions):
         t0 = time.time()
         r = self.solver.check(*assumptions)
+        if r == z3.unknown:
+            # opt-in (VERIF_BRANCH_NLSAT_MS > 0): a fresh nlsat solver on the same formula may settle an `unknown` of the
+            # incremental path solver (rational functions: decided in ms where the incremental solver times out).
+            # Only `unsat` is taken from it (callers read models from the path solver), so a branch is pruned only when
+            # it is really infeasible; everything else stays "feasible both ways" as before.
+            ms = int(os.environ.get('VERIF_BRANCH_NLSAT_MS', '0') or 0)
+            if ms > 0:
+                try:
+                    s = z3.Tactic('qfnra-nlsat').solver()
+                    s.set('timeout', ms)
+                    s.add(self.solver.assertions())
+                    s.add(*assumptions)
+                    if s.check() == z3.unsat:
+                        r = z3.unsat
+                except z3.Z3Exception:
+                    pass
+                self.stats['nlsat_branch_calls'] = self.stats.get('nlsat_branch_calls', 0) + 1
         self.solver_time += time.time() - t0
         self.stats['solver_calls'] = self.stats.get('solver_calls', 0) + 1
         return r
+
+    def _check_lit(self, lit):
+        """Feasibility of pc ∧ lit -> (result, model or None).  Opt-in (VERIF_PROVE_FRESH_MS > 0): when the long-lived
+        path solver times out (`unknown`, measured on nonlinear conditions such as a/(a+c) == (a-b)/(a-b+c)), ask a fresh
+        one-shot solver the same question; it answered in < 0.3 s where the incremental one gave up after 2 s."""
+        r = self._check(lit)
+        if r == z3.sat:
+            return r, self.solver.model()
+        if r == z3.unknown:
+            fresh_ms = int(os.environ.get('VERIF_PROVE_FRESH_MS', '0') or 0)
+            if fresh_ms > 0:
+                t0 = time.time()
+                try:
+                    s = z3.Solver()
+                    s.set('timeout', fresh_ms)
+                    s.add(self.solver.assertions())
+                    s.add(lit)
+                    r2 = s.check()
+                    self.stats['solver_calls'] = self.stats.get('solver_calls', 0) + 1
+                    if r2 == z3.sat:
+                        return r2, s.model()
+                    if r2 == z3.unsat:
+                        return r2, None
+                except z3.Z3Exception:
+                    pass
+                finally:
+                    self.solver_time += time.time() - t0
+        return r, None
 
     def decide(self, cond, kind='cmp'):
         cond = z3.simplify(cond)
@@ -495,15 +540,14 @@ class Ctx:
             except z3.Z3Exception:
                 pass
         if can_true is None:
-            r = self._check(cond)
+            r, m1 = self._check_lit(cond)
             can_true = r != z3.unsat
             if r == z3.sat and can_false is None:
-                self._model = self.solver.model()
+                self._model = m1
         if can_false is None:
-            r = self._check(z3.Not(cond))
+            r, m2 = self._check_lit(z3.Not(cond))
             can_false = r != z3.unsat
             if r == z3.sat:
-                m2 = self.solver.model()
                 if not can_true:
                     self._model = m2
         if can_true and can_false:
@@ -538,7 +582,10 @@ class Ctx:
             try:
                 # (a) nlsat tactic (the engine's existing second opinion, tried first; only `unsat` is taken from it),
                 # (b) default one-shot solver (unsat, or sat with a complete model incl. the uninterpreted functions)
-                for mk, take_sat in ((lambda: z3.Tactic('qfnra-nlsat').solver(), False), (z3.Solver, True)):
+                attempts = {'nlsat': (lambda: z3.Tactic('qfnra-nlsat').solver(), False), 'default': (z3.Solver, True)}
+                # order of the attempts: VERIF_PROVE_FRESH_ORDER (default 'nlsat,default'); 'default' alone skips nlsat
+                order = [k for k in os.environ.get('VERIF_PROVE_FRESH_ORDER', 'nlsat,default').split(',') if k in attempts]
+                for mk, take_sat in [attempts[k] for k in order]:
                     try:
                         s = mk()
                         s.set('timeout', min(fresh_ms, timeout_ms))
@@ -588,6 +635,20 @@ class Ctx:
         """A model of the path condition (for cross-checks)."""
         if self._model is not None:
             return self._model
+        fresh_ms = int(os.environ.get('VERIF_PROVE_FRESH_MS', '0') or 0)
+        if fresh_ms > 0:     # opt-in, as in prove(): a one-shot solver finds models of nonlinear path conditions much faster
+            t0 = time.time()
+            try:
+                s = z3.Solver()
+                s.set('timeout', fresh_ms)
+                s.add(self.solver.assertions())
+                if s.check() == z3.sat:
+                    self._model = s.model()
+                    return self._model
+            except z3.Z3Exception:
+                pass
+            finally:
+                self.solver_time += time.time() - t0
         self.solver.set('timeout', 10000)
         r = self._check()
         self.solver.set('timeout', BRANCH_TIMEOUT_MS)
